@@ -273,6 +273,10 @@ def wrap_cases(seed, tag, widths=(8, 16), deltas=(-2, -1, 0, 1, 2)):
 
 
 SNAP_SEQS = [
+    # one name used at two places (the snapshot holds what the last of them saved), same and different directions
+    [gen.op_single(), gen.op_snap("a"), gen.op_mst("kruskal", "carve"), gen.op_snap("a", 1, 1)],
+    [gen.op_single(), gen.op_snap("d", 1, 0), gen.op_multi(4), gen.op_snap("d", 1, 1)],
+    [gen.op_multi(4), gen.op_snap("d", 1, 1), gen.op_pflood(), gen.op_single(), gen.op_snap("d", 1, 0)],
     [gen.op_single(), gen.op_snap("a"), gen.op_mst("kruskal", "carve"), gen.op_snap("b", 1, 1)],
     [gen.op_pflood(), gen.op_snap("e", 0, 1), gen.op_single(), gen.op_snap("c", 1, 1)],
     [gen.op_multi(4), gen.op_snap("m", 1, 1)],
@@ -443,7 +447,7 @@ def basin_graph_cases(seed, count, max_side, tag, high_degree=0):
         n = gen.grid_size(g)
         steps = [dict(op="new", g=0, ops=[gen.op_single()])]
         for rep in range(3):
-            z = gen.rand_field(rng, g, rng.choice(["tied", "tied", "tied3", "bowl", "distinct", "flat", "sub"]))
+            z = gen.rand_field(rng, g, rng.choice(["tied", "tied", "tied3", "bowl", "distinct", "flat", "sub", "lowest"]))
             mask, bl = gen.rand_mask_bl(rng, g, p_bl=0.1)
             steps += [dict(op="mask", g=0, m=mask), dict(op="bl", g=0, bl=bl), dict(op="update", g=0, z=z),
                       dict(op="bgraph", g=0, m="kruskal"), dict(op="bgraph", g=0, m="boruvka")]
